@@ -500,7 +500,7 @@ pub fn arb_case() -> impl Strategy<Value = Case> {
 // session had negotiated graceful restart (PeerSession::run's delete-on-disconnect step)
 // ---------------------------------------------------------------------------
 
-pub const DYN_RULE: &str = "dynamic-sessions: a peer group with a dynamic-neighbour prefix, with or without graceful restart configured; a wire-level peer inside the prefix connects, optionally completes the OPEN exchange (advertising graceful restart with or without the N-bit, or not), optionally announces a route, and the connection ends (FIN, RST, Cease sent by the peer). After the daemon's session task has ended no neighbour entry is left for the address, and a later connection from it is treated as a new dynamic neighbour (it gets an OPEN). non-trivial := the session reached Established with graceful restart negotiated";
+pub const DYN_RULE: &str = "dynamic-sessions: a peer group with a dynamic-neighbour prefix, with or without graceful restart configured; a wire-level peer inside the prefix connects, optionally completes the OPEN exchange (advertising graceful restart with or without the N-bit, or not), optionally announces a route, optionally a second connection arrives from the same address meanwhile (it gets no session, and its end does not remove the neighbour), and the connection ends (FIN, RST, Cease sent by the peer). After the daemon's session task has ended no neighbour entry is left for the address, and a later connection from it is treated as a new dynamic neighbour (it gets an OPEN). non-trivial := the session reached Established with graceful restart negotiated";
 
 #[derive(Clone, Debug, Serialize, Deserialize)]
 pub struct DynCase {
@@ -512,6 +512,9 @@ pub struct DynCase {
     /// 0 FIN, 1 RST, 2 Cease sent by the peer
     pub end: u8,
     pub reconnect: bool,
+    /// while the first connection is up, a second one arrives from the same address (and is closed again)
+    #[serde(default)]
+    pub second: bool,
 }
 
 pub fn check_dynamic(c: &DynCase) -> CheckResult {
@@ -566,6 +569,30 @@ async fn dynamic(c: &DynCase) -> CheckResult {
             p.send_msg(&mut codec, &Message::Notification(rustybgp_packet::Notification::CeaseAdminShutdown)).await?;
         }
     }
+    if c.second && !(c.peer % 4 != 0 && c.end % 3 == 2) {
+        // the neighbour has a connection in this direction: a second one gets no session, and its end is not
+        // the end of the neighbour's last connection
+        let (view, mut conn) = rig.connect_now(src, false).await.map_err(h)?;
+        if view.is_some() {
+            return Err(Failure::new("dynamic", format!("a second connection from {src} in the same direction was given a session while the first is up")).with("what", "second-session"));
+        }
+        drop(conn.client.take());
+        if let Some(t) = conn.task.take() {
+            for _ in 0..2000 {
+                p.settle().await;
+                if t.is_finished() {
+                    break;
+                }
+            }
+        }
+        p.settle().await;
+        if !rig.has_peer(src).await {
+            return Err(Failure::new("dynamic", format!("the dynamic neighbour {src} was removed when a second, refused connection ended although its first connection is still up")).with("what", "removed-early"));
+        }
+        if p.is_closed() {
+            return Err(Failure::new("dynamic", format!("the first connection of {src} was closed by the daemon when a second connection from the same address arrived")).with("what", "first-closed"));
+        }
+    }
     if c.end % 3 == 1 {
         p.set_linger_zero();
     }
@@ -590,7 +617,7 @@ async fn dynamic(c: &DynCase) -> CheckResult {
 }
 
 pub fn arb_dynamic() -> impl Strategy<Value = DynCase> {
-    (any::<bool>(), any::<bool>(), 0u8..4, any::<bool>(), 0u8..3, any::<bool>()).prop_map(|(group_gr, group_nbit, peer, announce, end, reconnect)| DynCase { group_gr, group_nbit, peer, announce, end, reconnect })
+    (any::<bool>(), any::<bool>(), 0u8..4, any::<bool>(), 0u8..3, any::<bool>(), any::<bool>()).prop_map(|(group_gr, group_nbit, peer, announce, end, reconnect, second)| DynCase { group_gr, group_nbit, peer, announce, end, reconnect, second })
 }
 
 pub fn run(r: &Run) {
